@@ -314,13 +314,19 @@ class Function(StaticNode, ScrapesIO, ABC):
         return preview if len(preview) > 0 else {"None": type(None)}
         # If clause facilitates functions with no return value
 
-    def _on_run(self, **kwargs):
-        return self.node_function(**kwargs)
+    def _on_run(self, *args, **kwargs):
+        return self.node_function(*args, **kwargs)
 
     @property
     def _run_args(self) -> tuple[tuple, dict]:
         kwargs = self.inputs.to_value_dict()
-        return (), kwargs
+        # Positional-only parameters cannot be handed over by keyword
+        args = tuple(
+            kwargs.pop(label)
+            for label, parameter in self._get_input_args().items()
+            if parameter.kind is inspect.Parameter.POSITIONAL_ONLY
+        )
+        return args, kwargs
 
     def process_run_result(self, function_output: Any | tuple) -> Any | tuple:
         """
